@@ -17,6 +17,10 @@ Decided (all on normal forms, nothing on source text or positions):
                    visits every match of HourTimeRegex, which finds exactly the two-digit T-hours of a TIMEX.
   C07.timex-pad    every hour / minute / second the time decoders print right after 'T' or ':' in a TIMEX
                    f-string is zero padded to two digits (HourTimeRegex only sees 'T\\d\\d').
+  C07.compose      "<date> at <time>": in every date-time / date-time-range parser function that parses a time
+                   sub-entity, the TIMEX it assigns is derived (dataflow) from that sub-result's own timex_str - and
+                   from the date sub-result's timex_str when a date is parsed too - and format_short_time /
+                   short_time / luis_date_short_time are only called with their field-presence arguments.
 """
 import ast
 import re
@@ -30,9 +34,10 @@ META = {
     'text': 'C07 (partial): hour/minute/second 0 is never treated as "missing" by the time decoders; the AM/PM '
             '"two readings" wiring is closed (comment writers <-> _resolve_ampm branches, value and TIMEX both '
             'rewritten, comment only under hour <= 12); to_pm arithmetic on 1..12; T-hour / minute fields of '
-            'TIMEX strings are two-digit',
+            'TIMEX strings are two-digit; a TIMEX composed from a time (and date) sub-entity is derived from that entity\'s own TIMEX',
     'note': 'Not decided: which surface forms the time regexes accept, the am/pm arithmetic inside match_to_time '
-            '(12 am -> 00, 12 pm -> 12), 24:00 handling, composition of a date expression with a time, anything '
+            '(12 am -> 00, 12 pm -> 12), 24:00 handling, the value side of composing a date with a time (C07.compose only decides '
+            'that the composed TIMEX is derived from the sub-results\' own timex_str, not which characters of it are kept), anything '
             'about the numbers tables. The falsy-zero rule only sees ints whose provenance is a time group of the '
             'match (by group name) inside one function; values passed through attributes or other functions are '
             'not followed. The guard rule checks the presence of a <= 12 bound, not that it bounds the right '
@@ -760,40 +765,110 @@ def eval_int(node, env, ev):
     raise ValueError('unsupported ' + type(node).__name__)
 
 
-def to_pm_table(fn, ev, hours):
-    """{h: result hour} by evaluating the straight-line int assignments of to_pm after `x = int(...)`;
-    also the format spec the hour is printed with"""
-    hv = None
-    steps = []
-    for s in fn.body:
-        if isinstance(s, ast.Assign) and len(s.targets) == 1 and isinstance(s.targets[0], ast.Name):
-            v = s.value
-            if hv is None and isinstance(v, ast.Call) and isinstance(v.func, ast.Name) and v.func.id == 'int':
-                hv = s.targets[0].id
+class _Unreadable(Exception):
+    pass
+
+
+def _names(node):
+    return {n.id for n in ast.walk(node) if isinstance(n, ast.Name)}
+
+
+def _assigned_names(stmts):
+    out = set()
+    for s in stmts:
+        for n in ast.walk(s):
+            if isinstance(n, (ast.Assign, ast.AnnAssign, ast.AugAssign)):
+                for t in (n.targets if isinstance(n, ast.Assign) else [n.target]):
+                    if isinstance(t, ast.Name):
+                        out.add(t.id)
+    return out
+
+
+def _interp(stmts, env, ev, seed, where):
+    """interpret a statement list over the int environment `env` (name -> int); everything that does not touch an
+    int variable is skipped.  Handles assignments, augmented assignments, if/elif/else and conditional expressions.
+    `seed` = [name or None, input value]: the first `x = int(...)` binds x to the input hour.
+    returns False when a `return` was executed."""
+    for s in stmts:
+        if isinstance(s, (ast.Assign, ast.AnnAssign)):
+            targets = s.targets if isinstance(s, ast.Assign) else [s.target]
+            value = s.value
+            if value is None:
                 continue
-            if hv is not None and any(isinstance(n, ast.Name) and n.id == hv for n in ast.walk(v)) \
-                    and not any(isinstance(n, (ast.Call, ast.JoinedStr, ast.Subscript)) for n in ast.walk(v)):
-                steps.append((s.targets[0].id, v))
-        elif isinstance(s, ast.AugAssign) and isinstance(s.target, ast.Name) and hv is not None and s.target.id == hv:
-            steps.append((hv, ast.BinOp(left=ast.Name(id=hv, ctx=ast.Load()), op=s.op, right=s.value)))
-        elif isinstance(s, ast.If) and hv is not None and any(isinstance(n, ast.Name) and n.id == hv for n in ast.walk(s)):
-            raise AnalysisError('DateTimeFormatUtil.to_pm: hour computed in an if-statement; shape not understood')
-    if hv is None:
-        raise AnalysisError('DateTimeFormatUtil.to_pm: no `h = int(...)` found')
+            if seed[0] is None and isinstance(value, ast.Call) and isinstance(value.func, ast.Name) and value.func.id == 'int' \
+                    and len(targets) == 1 and isinstance(targets[0], ast.Name):
+                seed[0] = targets[0].id
+                env[seed[0]] = seed[1]
+                continue
+            for t in targets:
+                if isinstance(t, ast.Name):
+                    if _names(value) & set(env) or t.id in env:
+                        try:
+                            v = eval_int(value, env, ev)
+                            if isinstance(v, bool) or not isinstance(v, int):
+                                raise ValueError('non-int value')
+                            env[t.id] = v
+                        except (ValueError, KeyError, ZeroDivisionError, TypeError):
+                            if t.id in env:
+                                # an int variable re-assigned from something the interpreter cannot evaluate
+                                if not any(isinstance(n, (ast.JoinedStr, ast.Subscript)) for n in ast.walk(value)) \
+                                        or t.id == seed[0]:
+                                    raise _Unreadable('%s: `%s` is not an int expression the interpreter can evaluate'
+                                                      % (where, ast.unparse(s)))
+                                del env[t.id]
+        elif isinstance(s, ast.AugAssign):
+            if isinstance(s.target, ast.Name) and s.target.id in env:
+                try:
+                    env[s.target.id] = eval_int(ast.BinOp(left=ast.Name(id=s.target.id, ctx=ast.Load()), op=s.op, right=s.value), env, ev)
+                except (ValueError, KeyError, ZeroDivisionError, TypeError) as e:
+                    raise _Unreadable('%s: `%s` (%s)' % (where, ast.unparse(s), e))
+        elif isinstance(s, ast.If):
+            touches = bool((_assigned_names(s.body) | _assigned_names(s.orelse)) & set(env)) or \
+                (seed[0] is None and any(isinstance(n, ast.Call) and isinstance(n.func, ast.Name) and n.func.id == 'int'
+                                         for n in ast.walk(s)))
+            if not touches:
+                continue
+            try:
+                cond = eval_int(s.test, env, ev)
+            except (ValueError, KeyError, ZeroDivisionError, TypeError) as e:
+                raise _Unreadable('%s: condition `%s` of a branch that changes the hour cannot be evaluated (%s)'
+                                  % (where, ast.unparse(s.test), e))
+            if not _interp(s.body if cond else s.orelse, env, ev, seed, where):
+                return False
+        elif isinstance(s, (ast.For, ast.While, ast.Try, ast.With)):
+            if _assigned_names([s]) & set(env) or seed[0] is None:
+                raise _Unreadable('%s: the hour is computed inside a %s statement' % (where, type(s).__name__.lower()))
+        elif isinstance(s, ast.Return):
+            return False
+    return True
+
+
+def to_pm_table(fn, ev, hours):
+    """{h: hour printed by to_pm for input hour h} by interpreting the function body over ints, and the format spec the
+    hour is printed with.  Any body made of assignments, augmented assignments, if/elif/else and conditional expressions
+    is decided; AnalysisError only for shapes the interpreter cannot read (loops, calls of unknown helpers)."""
+    where = 'DateTimeFormatUtil.' + fn.name
+    table = {}
+    out_var = None
+    for h in hours:
+        env, seed = {}, [None, h]
+        try:
+            _interp(fn.body, env, ev, seed, where)
+        except _Unreadable as e:
+            raise AnalysisError(str(e))
+        if seed[0] is None:
+            raise AnalysisError('%s: no `h = int(...)` found' % where)
+        if out_var is None:
+            printed = [n.value.id for n in ast.walk(fn) if isinstance(n, ast.FormattedValue) and isinstance(n.value, ast.Name)]
+            cands = [v for v in printed if v in env]
+            out_var = cands[-1] if cands else seed[0]
+        if out_var not in env:
+            raise AnalysisError('%s: the printed hour variable is not an int the interpreter could follow' % where)
+        table[h] = env[out_var]
     spec = None
-    out_var = steps[-1][0] if steps else hv
     for n in ast.walk(fn):
         if isinstance(n, ast.FormattedValue) and isinstance(n.value, ast.Name) and n.value.id == out_var:
             spec = ''.join(p.value for p in n.format_spec.values if isinstance(p, ast.Constant)) if n.format_spec else ''
-    table = {}
-    for h in hours:
-        env = {hv: h}
-        try:
-            for name, expr in steps:
-                env[name] = eval_int(expr, env, ev)
-        except (ValueError, KeyError, ZeroDivisionError) as e:
-            raise AnalysisError('DateTimeFormatUtil.to_pm: cannot evaluate hour expression (%s)' % e)
-        table[h] = env[out_var]
     return table, spec
 
 
@@ -955,6 +1030,172 @@ def rule_pad(chk, idx):
 
 
 # ---------------------------------------------------------------------------------------------------
+# rule 7: "<date> at <time>": the composed TIMEX carries the time entity's own TIMEX (provenance)
+
+SUB_SLOTS = (('time', 'time_parser'), ('date', 'date_parser'))
+RERENDER = {'format_short_time': 3, 'short_time': 3, 'luis_date_short_time': 2}   # callee -> arguments needed to keep field presence
+
+
+def sub_results(fn):
+    """{label: names bound to the result of a call that involves self.config.<slot> (receiver of .parse or argument)}"""
+    out = {}
+    for n in own_walk(fn):
+        if isinstance(n, (ast.Assign, ast.AnnAssign)) and isinstance(n.value, ast.Call):
+            for label, slot in SUB_SLOTS:
+                if any(isinstance(a, ast.Attribute) and a.attr == slot for a in ast.walk(n.value)):
+                    targets = n.targets if isinstance(n, ast.Assign) else [n.target]
+                    for t in targets:
+                        for x in ast.walk(t):
+                            if isinstance(x, ast.Name):
+                                out.setdefault(label, set()).add(x.id)
+    return out
+
+
+class Provenance:
+    """flow-sensitive labels: which locals carry (part of) a sub-result's timex_str; strong update on assignment,
+    union at control-flow merges"""
+
+    def __init__(self, fn, subs):
+        self.fn, self.subs = fn, subs
+        self.sinks = []     # (assign node, labels)
+
+    def labels(self, e, env):
+        out = set()
+        for n in ast.walk(e):
+            if isinstance(n, ast.Attribute) and n.attr == 'timex_str':
+                root = n.value
+                while isinstance(root, (ast.Attribute, ast.Subscript)):
+                    root = root.value
+                if isinstance(root, ast.Name):
+                    for label, names in self.subs.items():
+                        if root.id in names:
+                            out.add(label)
+            elif isinstance(n, ast.Name):
+                out |= env.get(n.id, frozenset())
+        return frozenset(out)
+
+    def walk(self, stmts, env):
+        for s in stmts:
+            if isinstance(s, (ast.Assign, ast.AnnAssign)):
+                if s.value is None:
+                    continue
+                lab = self.labels(s.value, env)
+                for t in (s.targets if isinstance(s, ast.Assign) else [s.target]):
+                    if isinstance(t, ast.Name):
+                        env[t.id] = lab
+                    elif isinstance(t, (ast.Tuple, ast.List)):
+                        for x in t.elts:
+                            if isinstance(x, ast.Name):
+                                env[x.id] = lab
+                    elif isinstance(t, ast.Attribute) and t.attr == 'timex':
+                        self.sinks.append((s, lab))
+            elif isinstance(s, ast.AugAssign):
+                if isinstance(s.target, ast.Name):
+                    env[s.target.id] = env.get(s.target.id, frozenset()) | self.labels(s.value, env)
+                elif isinstance(s.target, ast.Attribute) and s.target.attr == 'timex':
+                    self.sinks.append((s, self.labels(s.value, env) | self.labels(s.target, env)))
+            elif isinstance(s, ast.If):
+                e1 = self.walk(s.body, dict(env))
+                e2 = self.walk(s.orelse, dict(env))
+                env.clear()
+                env.update(self.join(e1, e2))
+            elif isinstance(s, (ast.For, ast.While)):
+                e1 = self.walk(s.body, dict(env))
+                e1 = self.walk(s.body, self.join(env, e1))
+                e2 = self.walk(s.orelse, dict(env))
+                j = self.join(self.join(env, e1), e2)
+                env.clear()
+                env.update(j)
+            elif isinstance(s, ast.Try):
+                self.walk(s.body, env)
+                for h in s.handlers:
+                    self.walk(h.body, env)
+                self.walk(s.orelse, env)
+                self.walk(s.finalbody, env)
+            elif isinstance(s, ast.With):
+                self.walk(s.body, env)
+        return env
+
+    @staticmethod
+    def join(a, b):
+        return {k: a.get(k, frozenset()) | b.get(k, frozenset()) for k in set(a) | set(b)}
+
+    def run(self):
+        seen = {}
+        self.walk(self.fn.body, {})
+        for node, lab in self.sinks:        # loop bodies are walked twice: keep the last (most complete) labels
+            seen[id(node)] = (node, lab)
+        return sorted(seen.values(), key=lambda x: (x[0].lineno, x[0].col_offset))
+
+
+def compose_scan(fn):
+    """[(line, ok, detail, msg)] for a function of a date-time / date-time-range parser"""
+    subs = sub_results(fn)
+    out = []
+    if 'time' in subs:
+        need = {'time'} | ({'date'} if 'date' in subs else set())
+        sinks = Provenance(fn, subs).run()
+        for i, (node, lab) in enumerate(sinks):
+            missing = sorted(need - lab)
+            detail = 'timex #%d <- timex_str of %s; required %s' % (i + 1, sorted(lab) or 'no sub-result', sorted(need))
+            msg = ''
+            if missing:
+                msg = ('the TIMEX assigned here (`%s`) is not derived from the timex_str of the %s sub-result(s) %s: the '
+                       'composed TIMEX must carry the entity\'s own TIMEX (with its minute/second fields as written), not a '
+                       're-rendering of the resolved value' % (ast.unparse(node.value)[:80], '/'.join(missing),
+                                                               '/'.join(sorted(n for m_ in missing for n in subs[m_]))))
+            out.append((node.lineno, not missing, detail, msg))
+    for n in own_walk(fn):
+        if isinstance(n, ast.Call) and isinstance(n.func, ast.Attribute) and n.func.attr in RERENDER:
+            nargs = len(n.args) + len(n.keywords)
+            ok = nargs >= RERENDER[n.func.attr]
+            out.append((n.lineno, ok, '%s called with field-presence argument(s): %s' % (n.func.attr, 'yes' if ok else 'no'),
+                        '' if ok else '%s(...) is called without the has_min/has_sec (or source timex) argument: minutes and seconds '
+                        'written as 00 are dropped or replaced by the INVALID_MINUTE sentinel' % n.func.attr))
+    return out
+
+
+COMPOSE_CONTROL = '''
+def merge(self, source, reference):
+    pr1 = self.config.date_parser.parse(er1, reference)
+    pr2 = self.config.time_parser.parse(er2, reference)
+    time = pr2.value.future_value
+    time_str = pr2.timex_str
+    time_str = DateTimeFormatUtil.format_short_time(time.replace(hour=hour))
+    result.timex = pr1.timex_str + time_str
+    other.timex = pr1.timex_str + 'T' + pr2.timex_str[1:]
+'''
+
+
+def rule_compose(chk, idx):
+    rid = 'C07.compose'
+    chk.rule(rid, 'a TIMEX composed from a time sub-entity (and a date sub-entity) is derived from their own timex_str, never '
+                  're-rendered from the resolved value without the field-presence flags', floor=6, control=True)
+    ctl = compose_scan(ast.parse(COMPOSE_CONTROL).body[0])
+    chk.control(rid, [c[1] for c in sorted(ctl)] == [False, False, True])
+    n = 0
+    for c in sorted(idx.all_classes(), key=lambda k: k.qual):
+        if not (c.mod.name == PKG or c.mod.name.startswith(PKG + '.')):
+            continue
+        if parser_type_of(idx, c, lambda k: make_evalc(idx, k.mod, k)) not in ('datetime', 'datetimerange'):
+            continue
+        for name, fn in sorted(c.methods.items()):
+            if '#' in name:
+                continue
+            counts = {}
+            for line, ok, detail, msg in sorted(compose_scan(fn)):
+                counts[detail] = counts.get(detail, 0) + 1
+                if counts[detail] > 1:
+                    detail += ' (#%d)' % counts[detail]
+                chk.judge(ok, rid, c.mod.path, '%s.%s' % (c.name, name), detail, msg, line)
+                chk.consulted(c.mod.path)
+                n += 1
+    base = idx.cls(PKG + '.base_datetime.BaseDateTimeParser')
+    if 'merge_date_and_time' not in base.methods or not compose_scan(base.methods['merge_date_and_time']):
+        raise AnalysisError('BaseDateTimeParser.merge_date_and_time: no TIMEX composition from date_parser / time_parser results found')
+
+
+# ---------------------------------------------------------------------------------------------------
 
 def run(chk):
     chk.explanation = ('contradiction rule on the time decoders (an int decoded from an hour/minute/second group must not be '
@@ -966,6 +1207,7 @@ def run(chk):
     rule_ampm(chk, idx)
     rule_to_pm(chk, idx)
     rule_pad(chk, idx)
+    rule_compose(chk, idx)
     chk.assume('RegExpUtility.get_group / get_group_list / Match.group return the text of the named group; group names '
                'hour/min/sec denote digit groups whose language contains 0 and 00 (the property quantifies over 00:00..23:59:59)')
     chk.assume('callee identity is by attribute name on DateTimeFormatUtil (to_pm, all_str_to_pm); no monkey patching')
